@@ -46,3 +46,20 @@ func VerifGlobals() []byte {
 	}
 	return out
 }
+
+// VerifVbintUnmarshalInto decodes with the in-memory decoder into a receiver
+// that already holds a value (decoders must not depend on it).
+func VerifVbintUnmarshalInto(initial uint32, b []byte) (value uint32, width int, err error) {
+	x := vbint(initial)
+	if err := x.UnmarshalBinary(b); err != nil {
+		return 0, 0, err
+	}
+	return uint32(x), x.width(), nil
+}
+
+// VerifVbintReadFromInto is the same for the streaming decoder.
+func VerifVbintReadFromInto(initial uint32, r io.Reader) (value uint32, n int64, err error) {
+	x := vbint(initial)
+	n, err = x.ReadFrom(r)
+	return uint32(x), n, err
+}
